@@ -268,6 +268,85 @@ def layer1(run, ad, adp):
                                {"kind": "reject", "function": fname})
 
 
+# ------------------------------------------------------------------------------------------
+# user context functions: aldi.finite_differentiators on symbolic Atoms
+# ------------------------------------------------------------------------------------------
+
+_USER_FUNCS = {
+    # name: (function, arity incl. primitives, operand kinds, true partials)
+    "sq": (lambda x: x * x, "A", lambda u, v, c: (u * u, 2 * u, None)),
+    "prod": (lambda x, y: x * y, "AA", lambda u, v, c: (u * v, v, u)),
+    "prod_logly": (lambda x, y: x * y, "LA", lambda u, v, c: (u * v, v, u)),
+    "affine_prim": (lambda x, c: 3 * x + c, "Ac", lambda u, v, c: (3 * u + c, 3, None)),
+    "mixed": (lambda x, y: x * x - 2 * x * y + y, "AA", lambda u, v, c: (u * u - 2 * u * v + v, 2 * u - 2 * v, 1 - 2 * u)),
+}
+
+
+def layer_findiff(run, ad):
+    """two-sided differences are exact for polynomials of degree <= 2: the chain-rule plumbing of finite_differentiator
+    (_collect_arg_values/_diffs, _plus_epsilon, _partial_two_sided_derivative, _partial_times_inner) is decided exactly"""
+    from irispie.aldi import finite_differentiators as fdm
+    run.functions_encoded.append("aldi.finite_differentiators.{finite_differentiator,_calculate_finite_derivatives,_partial_times_inner,"
+                                 "_partial_two_sided_derivative,_plus_epsilon,_get_epsilon,_collect_arg_values,_collect_arg_diffs}")
+    run.bounds["findiff"] = "user functions: polynomials of degree <= 2 in one or two Atom arguments (plus a primitive argument); values 2 columns, 2x2 seeds, all symbolic"
+    proxy = npproxy.Proxy(object_alloc=False)
+    K, NW = 2, 2
+    with npproxy.installed(proxy, fdm, ad):
+        for name, (f, kinds, truth) in _USER_FUNCS.items():
+            key = f"findiff:{name}"
+            try:
+                ops = []
+                for nm, kind in zip("uv", kinds):
+                    if kind == "c":
+                        ops.append((Fraction(5, 4), None, None))
+                    else:
+                        ops.append(_mk_atom(ad, nm, kind, K, NW, {}))
+                wrapped = fdm.finite_differentiator(f)
+                with S.Path() as path:
+                    res = wrapped(*[o[0] for o in ops])
+                rvv = np.asarray(res.value, dtype=object).reshape(-1)
+                rd = np.broadcast_to(np.asarray(res.diff, dtype=object), (NW, K))
+                dom = [path.condition()]
+                for (atom, val, _), kind in zip(ops, kinds):
+                    if kind == "L":
+                        dom += [val[j].t > 0 for j in range(K)]
+                okall = True
+                for j in range(K):
+                    u = ops[0][1][j]
+                    v = ops[1][1][j] if len(ops) > 1 and ops[1][1] is not None else None
+                    c = ops[1][0] if len(ops) > 1 and ops[1][1] is None else None
+                    val, fu, fv = truth(u, v, c)
+                    claims = [(f"value[{j}]", rvv[j], val)]
+                    for i in range(NW):
+                        d = fu * ops[0][2][i, j]
+                        if fv is not None and v is not None:
+                            d = d + fv * ops[1][2][i, j]
+                        claims.append((f"diff[{i},{j}]", rd[i, j], d))
+                    for labl, a, b in claims:
+                        at, bt = S.const(a).t, S.const(b).t
+                        r, m = run.prove(f"{key}:{labl}", at == bt, dom, timeout_ms=30000, nl=True,
+                                         sample={"user_function": name, "cell": labl, "impl": str(at)[:160], "true": str(bt)[:120]} if labl == "diff[0,0]" else None)
+                        if r == "unsat":
+                            continue
+                        okall = False
+                        if r == "sat":
+                            names = [n_ for n_ in _names({"kinds": kinds.replace("c", "")}, K, NW)]
+                            vals = model_values(m, names)
+                            run.counterexample(key, f"findiff:{name}", f"{labl}: finite-difference derivative {str(at)[:80]} != chain rule {str(bt)[:80]}",
+                                               {"kind": "findiff", "function": name, "values": {n_: [x.numerator, x.denominator] for n_, x in vals.items()}})
+                        else:
+                            run.unknown(key, f"solver {r} on {labl}")
+                        break
+                    if not okall:
+                        break
+                if okall:
+                    run.ok(key)
+            except S.SymbolicBranchError as exc:
+                run.unknown(key, exc)
+            except Exception as exc:
+                run.error(key, exc)
+
+
 def _fd_compare(fname, r):
     from irispie.aldi import adaptations as adp
     if not hasattr(r, "diff"):
@@ -390,6 +469,37 @@ def replay(case):
                         if err > worst:
                             worst, msg = err, f"{lab}: Atom gives {got}, calculus gives {want}"
         return worst > 1e-7, msg or "all cells agree"
+    if case["kind"] == "findiff":
+        from irispie.aldi import finite_differentiators as fdm
+        f, kinds, truth = _USER_FUNCS[case["function"]]
+        K, NW = 2, 2
+        vals = {n: float(Fraction(a, b)) for n, (a, b) in case["values"].items()}
+        ops = []
+        for nm, kind in zip("uv", kinds):
+            if kind == "c":
+                ops.append((1.25, None, None))
+                continue
+            val = np.array([vals.get(f"{nm}_{j}", 1.5 + j) for j in range(K)], dtype=float)
+            dif = np.array([[vals.get(f"d{nm}_{i}_{j}", 1.0 + i - j) for j in range(K)] for i in range(NW)], dtype=float)
+            logly = kind == "L"
+            if logly:
+                val = np.abs(val) + 0.5
+            ops.append((ad.Atom.no_context(val, dif, logly), val, dif * val if logly else dif))
+        res = fdm.finite_differentiator(f)(*[o[0] for o in ops])
+        rd = np.broadcast_to(np.asarray(res.diff, dtype=float), (NW, K))
+        worst, msg = 0.0, "finite differences agree with the chain rule"
+        for j in range(K):
+            u = float(ops[0][1][j])
+            v = float(ops[1][1][j]) if len(ops) > 1 and ops[1][1] is not None else None
+            c = ops[1][0] if len(ops) > 1 and ops[1][1] is None else None
+            _, fu, fv = truth(u, v, c)
+            for i in range(NW):
+                want = fu * ops[0][2][i, j] + (fv * ops[1][2][i, j] if fv is not None and v is not None else 0.0)
+                got = rd[i, j]
+                e = abs(got - want) / (1 + abs(want))
+                if e > worst:
+                    worst, msg = e, f"diff[{i},{j}]: finite differences {got!r} vs chain rule {want!r}"
+        return worst > 1e-7, msg
     if case["kind"] in ("system", "steady_jacobian"):
         from checks import C02_placement
         return C02_placement.replay(case)
@@ -409,6 +519,7 @@ def main(run):
     run.stubs += ["scipy.special.expit -> 1/(1+EXP(-x)) on symbolic input (definition of the logistic function)",
                   "numpy log/exp/sqrt/maximum element-wise dispatch to SReal methods (npproxy)"]
     layer1(run, ad, adp)
+    layer_findiff(run, ad)
     try:
         from checks import C02_placement
     except ImportError:
